@@ -36,11 +36,24 @@ def only_fail(terms):
     return bool(terms) and not any(has_stream(t) for t in terms) and any(isinstance(t, Fail) for t in terms)
 
 
+def _ends_ret(terms):
+    return bool(terms) and isinstance(terms[-1], Ret)
+
+
 def normalise(terms, side):
     out = []
-    for t in terms:
+    for i_, t in enumerate(terms):
         if isinstance(t, Alt):
             then, orelse = normalise(t.then, side), normalise(t.orelse, side)
+            if _ends_ret(then) != _ends_ret(orelse) and not only_fail(then) and not only_fail(orelse):
+                # one arm leaves the codec method early: everything after the `if` belongs to the other arm only
+                rest = normalise(terms[i_ + 1:], side)
+                if any(has_stream(x) for x in rest):
+                    early = "then" if _ends_ret(then) else "orelse"
+                    a = Alt(node=t.node, cond=t.cond, then=then if early == "then" else then + rest, orelse=orelse + rest if early == "then" else orelse)
+                    a.early = early
+                    out.append(a)
+                    return out
             if only_fail(then):
                 exc = next((x.exc for x in then if isinstance(x, Fail)), "")
                 out.append(GuardFail(t.cond, t.node, exc))
@@ -482,9 +495,18 @@ class Unifier:
             if not has_stream(r):
                 self.reffect(r)
                 continue
+            if isinstance(r, Alt) and getattr(r, "early", None):
+                # the reader leaves early on one arm: each arm, on its own, must consume what the writer still emits
+                self.fork_early(W[wi:], r, "r")
+                wi = len(W)
+                continue
             # peek writer
             save = wi
             w = next_w()
+            if isinstance(w, Alt) and getattr(w, "early", None):
+                self.fork_early(R[ri - 1:], w, "w")
+                ri = len(R)
+                continue
             if w is None:
                 self.bad("order", None, r, f"reader consumes `{show([r])[0].strip()}` but the writer has nothing left to write")
                 continue
@@ -512,6 +534,63 @@ class Unifier:
 
     def weffect(self, t):
         pass
+
+    # ------------------------------------------------------------------ early exits of a codec method
+    def zeros_of(self, cond):
+        """canonical texts of the expressions a condition (over writer-side values) forces to zero / empty"""
+        z = set()
+        c = cond
+        if isinstance(c, ast.UnaryOp) and isinstance(c.op, ast.Not):
+            z.add(canon(c.operand, self.ctx))
+            z.add(canon(ast.Call(func=N("len"), args=[c.operand], keywords=[]), self.ctx))
+        if isinstance(c, ast.Compare) and len(c.ops) == 1:
+            a, op, b = c.left, c.ops[0], c.comparators[0]
+            for x, y, o in ((a, b, op), (b, a, {ast.Lt: ast.Gt, ast.Gt: ast.Lt, ast.LtE: ast.GtE, ast.GtE: ast.LtE}.get(type(op), type(op))())):
+                if isinstance(y, ast.Constant) and isinstance(y.value, int) and not isinstance(y.value, bool) \
+                        and ((isinstance(o, ast.Eq) and y.value == 0) or (isinstance(o, ast.LtE) and y.value == 0) or (isinstance(o, ast.Lt) and y.value == 1)):
+                    z.add(canon(x, self.ctx))
+                    if isinstance(x, ast.Call) and norm(x.func) == "len" and len(x.args) == 1:
+                        z.add(canon(x.args[0], self.ctx))
+        return z
+
+    def empty_under(self, t, zeros, side):
+        """the term transfers no bytes when the expressions in `zeros` are zero / empty"""
+        if not zeros:
+            return False
+        sub = (lambda e: self.rsub(e)) if side == "r" else (lambda e: e)
+        cz = lambda e: e is not None and canon(sub(e), self.ctx) in zeros
+
+        if isinstance(t, Rep):
+            if t.kind == "range":
+                return cz(t.hi) and norm(t.lo) == "0"
+            over = getattr(t, "over", None)
+            return over is not None and (cz(over) or cz(ast.Call(func=N("len"), args=[over], keywords=[])))
+        if isinstance(t, Field) and t.count is not None:
+            return cz(t.count)
+        return False
+
+    def fork_early(self, others, a: Alt, side):
+        """`a` (on `side`) ends its method on one arm; `others` is what the other side still has to transfer.  Each arm is
+        compared with it separately under the arm's condition; the arm that leaves early goes first so that the bindings and the
+        decoded object of the main path are the ones that remain."""
+        cond = self.rsub(a.cond) if side == "r" else a.cond
+        arms = [(a.then, cond, a.early == "then"), (a.orelse, negate(cond), a.early == "orelse")]
+        arms.sort(key=lambda x: not x[2])
+        for branch, c, is_early in arms:
+            kt = list(self.known_true)
+            self.known_true.append(canon(c, self.ctx))
+            zeros = self.zeros_of(c)
+            mine = [t for t in branch if not (has_stream(t) and self.empty_under(t, zeros, side))]
+            theirs = [t for t in others if not (has_stream(t) and self.empty_under(t, zeros, "w" if side == "r" else "r"))]
+            n_eff = len(self.effects)
+            if side == "r":
+                self.seq(theirs, mine)
+            else:
+                self.seq(mine, theirs)
+            if is_early:
+                del self.effects[n_eff:]
+            self.known_true = kt
+        self.ok("format", a if side == "w" else None, a if side == "r" else None, f"early exit on `{canon(cond, self.ctx)}`: both arms compared with the other side")
 
     def reffect(self, r):
         if isinstance(r, Alloc):
